@@ -8,6 +8,9 @@ import (
 )
 
 func init() {
+	if os.Getenv("DBG_FN") == "" {
+		return
+	}
 	register("DBG", func(c *ctx) {
 		c.r.Rule("D", "dbg", "debug", 0)
 		f := c.p.Fn(os.Getenv("DBG_FN"))
